@@ -299,7 +299,9 @@ impl SeqModel for C07 {
         let expected_new: BTreeSet<String> = needed.difference(&b_data).cloned().collect();
         // ---- run the real backup with a fresh handle
         let env = Env::from_store(s.store.clone());
-        let repo = env.open_ids().map_err(|e| ("C07/open".to_string(), e.display_log()))?;
+        // every second backup opens its ids-only index through the variant which first compares the
+        // index files with the pack listing (`to_indexed_ids_checked`): same answers expected
+        let repo = if s.n % 2 == 1 { env.open_ids_checked() } else { env.open_ids() }.map_err(|e| ("C07/open".to_string(), e.display_log()))?;
         let label = format!("s{}", s.n);
         let snap = backup_with(&repo, &MemSource::new("r", n.tree.clone()), &label, T0 + 1000 + s.n as i64, &vkit::rep::bopts())
             .map_err(|e| ("C07/backup/error".to_string(), e.display_log()))?;
